@@ -600,6 +600,9 @@ pub fn run_c28(ctx: &Ctx, rep: &mut Report) {
         // move the virtual clock by k < window seconds, and only then release the threads. Exactly
         // one refill of rate x k is due, however many threads notice it at the same moment.
         let refill_k: Option<u32> = if !ctx.is_miri() && window >= 2 && rng.chance(1, 2) { Some(rng.range(1, window as usize - 1) as u32) } else { None };
+        // the real clock runs from the creation of the bucket (the first pre-fill request), so
+        // the time limit below has to cover the pre-fill as well as the burst
+        let started = Instant::now();
         if let Some(k) = refill_k {
             let mut bufs = Buffers::new(1232);
             let source = IpAddr::V4(Ipv4Addr::new(10, 9, 9, 250));
@@ -628,7 +631,6 @@ pub fn run_c28(ctx: &Ctx, rep: &mut Report) {
         let bad = Arc::new(AtomicU64::new(0));
         let active = Arc::new(AtomicUsize::new(0));
         let max_active = Arc::new(AtomicUsize::new(0));
-        let started = Instant::now();
         let mut handles = Vec::new();
         for t in 0..threads {
             let (server, barrier, sent, slipped, dropped, bad, active, max_active) = (server.clone(), barrier.clone(), sent.clone(), slipped.clone(), dropped.clone(), bad.clone(), active.clone(), max_active.clone());
